@@ -209,7 +209,7 @@ func classOf(f float64) string {
 func operandPool(rn *Runner, d *Doc, g *ExprGen) []Expr {
 	ops := []Expr{
 		num("1"), num("2"), num("10"), num("9"), num("0"), num("3.5"), &ENeg{num("4")}, bin("div", num("0"), num("0")), bin("div", num("1"), num("0")), bin("div", &ENeg{num("1")}, num("0")), &ENeg{num("0")},
-		lit("1"), lit("10"), lit("9"), lit(" 12 "), lit("abc"), lit(""), lit("NaN"), lit("1e3"), lit("b"), lit("-4"), lit("x y"), lit("true"), lit("\u00a09"), lit("10\u2003"),
+		lit("1"), lit("10"), lit("9"), lit(" 12 "), lit("abc"), lit(""), lit("NaN"), lit("1e3"), lit("b"), lit("-4"), lit("x y"), lit("true"), lit("\u00a09"), lit("10\u2003"), lit(" -4"), lit("\n-9\t"),
 		call("true"), call("false"),
 		&EPath{Abs: true, Steps: []*Stp{{Axis: "child", Test: NodeTest{Kind: "name", Local: "nope"}}}}, // empty
 		&EPath{Abs: true, Steps: []*Stp{{Axis: "descendant", Test: NodeTest{Kind: "text"}}}},
@@ -339,6 +339,28 @@ func famC06(rn *Runner) {
 				rn.Sample("sum(" + Render(ns, RenderOpts{}) + ") -> " + r)
 			}
 			rn.scalar(d, env, start, call("count", ns), "count", "count is the set size", true)
+		}
+		// node-set operands whose stored order is not document order: the operand is number(string-value of the
+		// FIRST node in document order)
+		uenv := envShuffled(rn, d)
+		uo := unorderedOperands(rn)
+		for k := 0; k < rn.Scale(60, 300) && !rn.TooMany(); k++ {
+			a := pick(rn.R, uo)
+			start := pick(rn.R, d.Paths)
+			var e Expr
+			switch rn.R.Intn(5) {
+			case 0:
+				e = bin(pick(rn.R, arOps), a, num("1"))
+			case 1:
+				e = bin(pick(rn.R, arOps), num("7"), a)
+			case 2:
+				e = &ENeg{a}
+			case 3:
+				e = call(pick(rn.R, []string{"floor", "ceiling", "round", "number"}), a)
+			default:
+				e = bin(pick(rn.R, arOps), a, pick(rn.R, uo))
+			}
+			rn.scalar(d, uenv, start, e, "nodeset-operands-unordered", "a node-set operand converts through its first node in document order, whatever the stored order", true)
 		}
 		rn.DropDoc(d)
 	}
